@@ -192,6 +192,7 @@ pub mod harness {
 
 def build(ctx):
     C = ctx
+    C.helper_rewrites = [dict(rule='X5', pattern='anyhow::Error', repl='Error'), dict(rule='X5', pattern=r"\bCertificateDer<'\w+>", repl='CertificateDer', regex=True)] if False else [dict(rule='X5', pattern='anyhow::Error', repl='Error')]
     t = PRELUDE
     t += C.item(CR, 'static SUPPORTED_SIG_ALGS')
     t += C.item(CR, 'struct CertVerifier', derives=False)
